@@ -546,9 +546,10 @@ class JaxImplicitComponent(ImplicitComponent):
             else:
                 d_residuals.asarray()[:] = deriv_vals.flatten()
         else:
-            inhash = (inputs.get_hash(), outputs.get_hash()) + tuple(self._discrete_inputs.values())
+            inhash = ((inputs.get_hash(), outputs.get_hash()) +
+                      tuple(self._discrete_inputs.values()) + self.get_self_statics())
             if inhash != self._vjp_hash:
-                # recompute vjp function only if inputs or outputs have changed
+                # recompute vjp function only if inputs, outputs or static values have changed
                 dx = tuple(chain(d_inputs.values(), d_outputs.values()))
                 full_invals = tuple(self._get_compute_primal_invals(inputs, outputs,
                                                                     self._discrete_inputs))
